@@ -131,22 +131,23 @@ pub fn compile_to_avbc_with_output(
 
     let bytes = if should_bundle && !loader.loaded_native_modules().is_empty() {
         let bundles = build_native_bundles(loader.loaded_native_modules())?;
-        aelys_bytecode::asm::serialize_with_manifest(
+        aelys_bytecode::asm::try_serialize_with_manifest(
             &function,
             &heap,
             manifest_bytes.as_deref(),
             Some(&bundles),
         )
     } else if manifest_bytes.is_some() {
-        aelys_bytecode::asm::serialize_with_manifest(
+        aelys_bytecode::asm::try_serialize_with_manifest(
             &function,
             &heap,
             manifest_bytes.as_deref(),
             None,
         )
     } else {
-        aelys_bytecode::asm::serialize(&function, &heap)
-    };
+        aelys_bytecode::asm::try_serialize(&function, &heap)
+    }
+    .map_err(|err| err.to_string())?;
 
     let output_path = output.unwrap_or_else(|| output_path_for(path));
     std::fs::write(&output_path, bytes)
@@ -281,7 +282,8 @@ fn assemble_to_avbc(path: &Path, output: Option<PathBuf>) -> Result<PathBuf, Str
         return Err("no functions found in assembly file".to_string());
     }
     let function = reconstruct_function_hierarchy(functions);
-    let bytes = aelys_bytecode::asm::serialize(&function, &heap);
+    let bytes =
+        aelys_bytecode::asm::try_serialize(&function, &heap).map_err(|err| err.to_string())?;
     let output_path = output.unwrap_or_else(|| output_path_for(path));
     std::fs::write(&output_path, bytes)
         .map_err(|err| format!("failed to write {}: {}", output_path.display(), err))?;
